@@ -378,6 +378,7 @@ def contains(I, run, item: Value, cont: Value, node) -> bool:
     if isinstance(cont, Ref):
         c = run.cell(cont)
         if isinstance(c, HDict):
+            item = _as_key(I, run, item)
             if isinstance(item, C):
                 if _hashable(item.v) and item.v in c.items:
                     return True
@@ -670,6 +671,7 @@ def subscript(I, run, base: Value, idx, node) -> Value:
     if isinstance(base, Ref):
         c = run.cell(base)
         if isinstance(c, HDict):
+            idx = _as_key(I, run, idx)
             if isinstance(idx, C) and _hashable(idx.v):
                 if idx.v in c.items:
                     return c.items[idx.v]
@@ -773,7 +775,7 @@ def store_subscript(I, run, base: Value, idx, v: Value, node):
     if isinstance(base, Ref):
         c = run.cell(base)
         if isinstance(c, HDict):
-            idx = I.resolve(run, idx)
+            idx = _as_key(I, run, idx)
             if isinstance(idx, C) and _hashable(idx.v):
                 c.items[idx.v] = v
             else:
@@ -839,6 +841,16 @@ _STR_FOLD = {"lower", "upper", "strip", "lstrip", "rstrip", "split", "rsplit", "
              "hex", "capitalize", "index", "rfind", "zfill", "isalpha", "isalnum", "casefold", "isdecimal", "isascii", "isnumeric",
              "isspace", "islower", "isupper", "istitle", "isidentifier", "isprintable", "swapcase", "removeprefix", "removesuffix",
              "rpartition", "center", "ljust", "rjust", "expandtabs", "rindex"}
+
+
+def _as_key(I, run, k: Value) -> Value:
+    """a tuple of constants used as a dictionary key is the constant tuple"""
+    k = I.resolve(run, k)
+    if isinstance(k, Tup) and k.items:
+        parts = [_as_key(I, run, x) for x in k.items]
+        if all(isinstance(x, C) and _hashable(x.v) for x in parts):
+            return C(tuple(x.v for x in parts))
+    return k
 
 
 def _py_to_val(run, x) -> Value:
@@ -1043,7 +1055,7 @@ def _list_method(I, run, recv, c: HList, name, args, kwargs, node) -> Value:
 
 def _dict_method(I, run, recv, c: HDict, name, args, kwargs, node) -> Value:
     if name in ("get", "pop", "setdefault"):
-        k = I.resolve(run, args[0])
+        k = _as_key(I, run, args[0])
         default = args[1] if len(args) > 1 else kwargs.get("default", NONE)
         if isinstance(k, C) and _hashable(k.v):
             if k.v in c.items:
@@ -1074,14 +1086,14 @@ def _dict_method(I, run, recv, c: HDict, name, args, kwargs, node) -> Value:
             c.items[k] = v
         return NONE
     if name == "items":
-        out = [Tup((C(k), v)) for k, v in c.items.items()] + [Tup((k, v)) for k, v in c.sym_items]
+        out = [Tup((_py_to_val(run, k), v)) for k, v in c.items.items()] + [Tup((k, v)) for k, v in c.sym_items]
         if c.open:
             return App("items", (recv,))
         return Tup(tuple(out))
     if name == "keys":
         if c.open:
             return App("keys", (recv,))
-        return Tup(tuple([C(k) for k in c.items] + [k for k, _ in c.sym_items]))
+        return Tup(tuple([_py_to_val(run, k) for k in c.items] + [k for k, _ in c.sym_items]))
     if name == "values":
         if c.open:
             return App("values", (recv,))
@@ -1132,6 +1144,16 @@ def call(I, run, fn: Value, args: List[Value], kwargs: Dict[str, Value], node) -
         name = fn.name
         if name in cfg.stubs:
             return cfg.stubs[name](I, run, args, kwargs, node)
+        if name in ("struct.pack", "struct.unpack") and args and all(isinstance(I.resolve(run, a), C) for a in args) and not kwargs:
+            # trusted library on constants
+            import struct as _struct
+            try:
+                r = getattr(_struct, name[7:])(*[I.resolve(run, a).v for a in args])
+                return C(r) if isinstance(r, bytes) else Tup(tuple(C(x) for x in r))
+            except _struct.error:
+                I.raise_builtin(run, "struct.error", node)
+            except TypeError as e:
+                I.raise_builtin(run, "TypeError", node, C(str(e)))
         if name == "struct.calcsize" and args and isinstance(I.resolve(run, args[0]), C):
             import struct as _struct
             try:
